@@ -38,19 +38,19 @@ CHECKS = {
  "C09": dict(
    technique="TLA+ protocol specification of the Method/Sequence API over handles (TLC: exhaustive small programs + simulation), programs replayed on every method through the real generic API and compared bit for bit with element-wise next",
    category="model_checking",
-   text="spec/Api.tla: a handle's abstract state is the number of inputs consumed; every call form (next, over, call, apply, new_over, new_apply, into_fn/new_fn, with_history{next,get,iter}, with_last_value{next,peek}, peek, clone, snapshot) must return the slice ys[c+1..c+k] of ONE reference run and advance c by k; independence of handles is an action property checked by TLC. TLC enumerates every program of <= 4 operations (3 handles, chunks 0..2) and simulates longer ones; the harness replays them on 47 method subjects (29 through the real generic wrappers), bit-exact.",
+   text="spec/Api.tla: a handle's abstract state is the number of inputs consumed; every call form (next, over, call, apply, new_over, new_apply, into_fn/new_fn, with_history{next,get,iter}, with_last_value{next,peek}, peek, clone, snapshot) must return the slice ys[c+1..c+k] of ONE reference run and advance c by k; independence of handles is an action property checked by TLC. TLC enumerates every program of <= 4 operations (3 handles, chunks 0..2) and simulates longer ones; the harness replays them on 47 method subjects (29 through the real generic wrappers) x 3 streams (random, ties, movement-flat-movement), bit-exact; Api_deep adds one-handle programs with chunks of any size 0..24 followed by peek / another chunk, i.e. peek and bulk calls at every position of the stream.",
    design_ref="DESIGN.md 5/C09",
    note="Indicator-level over/init_fn are covered by C11's static-vs-dyn replay. Pair/candle-input methods run bulk operations element-wise (their generic bulk API does not exist for unsized inputs)."),
  "C10": dict(
    technique="TLA+ model of every constructor's pre-validation arithmetic evaluated by TLC on all parameter values (complete tables), replayed on the real constructors; accepted instances soaked",
    category="model_checking",
-   text="spec/Params.tla models each method constructor and MA::init as coded (PeriodType arithmetic with overflow, Window::new's debug assertion, guards, nested constructors in evaluation order) with outcome ok/err/panic. TLC evaluates all 256 lengths (all 65536 pairs for two-parameter constructors, out-of-range counts) and prints the table; the harness calls the real constructors on the same complete sets in the dev profile and compares outcome classes, checks non-finite construction values, and runs every accepted instance for 700/3000 steps. Parameter values on which the model (and the code) panics are reported per constructor.",
+   text="spec/Params.tla models each method constructor and MA::init as coded (PeriodType arithmetic with overflow, Window::new's debug assertion, guards, nested constructors in evaluation order) with outcome ok/err/panic. TLC evaluates all 256 lengths (all 65536 pairs for two-parameter constructors, out-of-range counts) and prints the table; the harness calls the real constructors on the same complete sets in the dev profile and compares outcome classes, checks non-finite construction values, and runs every accepted instance for 700/3000 steps. Parameter values on which the model (and the code) panics are reported per constructor. Indicator level: spec/MC_IndParams enumerates every one- and two-field deviation from each indicator's default configuration over boundary grids per parameter type (35k configurations); the harness applies them through set(), and checks validate() = false => init Err, no panic in set/validate/init, and no panic of accepted instances on a stream.",
    design_ref="DESIGN.md 5/C10",
    note="Indicator validate/init tables are part of C11's replay; text parsing is covered by C18's grammar model."),
  "C13": dict(
    technique="TLA+ model checking (Window Serialize/Deserialize in every phase, SMM restore in every reachable state) + Api.tla snapshot programs and restore-before-every-call replays on TLC-enumerated streams, bit-exact",
    category="model_checking",
-   text="Window.tla's Deserialize (validation, empty window) and Selection.tla's SmmRestore (slice rebuilt by sorting) are model-checked: a restored instance reads/continues like the original in every reachable state. Binding: Api.tla programs with snapshot/clone at every position replayed on all 47 method subjects through serde_json (lossless floats), original and restored futures bit-identical; every TLC-enumerated token stream replayed with the instance replaced by its restored snapshot before every call (signed zeros, ties); recorded Window programs with adversarial (buf,index) documents validated by Trace_Window (Err, never panic).",
+   text="Window.tla's Deserialize (validation, empty window) and Selection.tla's SmmRestore (slice rebuilt by sorting) are model-checked: a restored instance reads/continues like the original in every reachable state. Binding: Api.tla programs with snapshot/clone at every position replayed on all 47 method subjects through serde_json (lossless floats), original and restored futures bit-identical; every MA kind in every MA-typed field, every source and every flag of every indicator configuration round-trips (config and running instance; field types are discovered through set(), not through the serialized form); every TLC-enumerated token stream replayed with the instance replaced by its restored snapshot before every call (signed zeros, ties); recorded Window programs with adversarial (buf,index) documents validated by Trace_Window (Err, never panic).",
    design_ref="DESIGN.md 5/C13",
    note="serde_json with float_roundtrip is the carrier; indicator instances/configs are added with the indicator registry."),
  "C16": dict(
@@ -77,13 +77,13 @@ CHECKS = {
  "C15": dict(
    technique="TLA+ relational trace validation: related runs of the real moving averages recorded side by side, the algebraic laws checked by TLC in exact fixed point; impulse responses against exact rational weight profiles for every length",
    category="model_checking",
-   text="spec/Trace_Laws.tla states affine equivariance (any a incl. negative, any b), reproduction of constants, range containment for the non-negative kinds, superposition for the linear kinds, and the documented weight profile as exact rationals (SMA, WMA, SWMA, TRIMA, LinReg, Conv = its weight vector incl. zero weights at either end) or as the exact recurrence (EMA, DMA, TMA, DEMA, TEMA, RMA, WSMA). The harness runs the 15 MA kinds + Conv + VWMA in related instances on float streams and logs outputs; TLC checks every step within the summed allowances. Impulse responses are recorded for lengths 1..12,31..33,63,64,126..128,253,254 (quick) / all 1..254 (thorough).",
+   text="spec/Trace_Laws.tla states affine equivariance (any a incl. negative, any b), reproduction of constants, range containment for the non-negative kinds, superposition for the linear kinds, and the documented weight profile as exact rationals (SMA, WMA, SWMA, TRIMA, LinReg, Conv = its weight vector incl. zero weights at either end) or as the exact recurrence (EMA, DMA, TMA, DEMA, TEMA, RMA, WSMA). The harness runs the 15 MA kinds + Conv + VWMA in related instances on float streams and logs outputs; TLC checks every step within the summed allowances. Streams hold plateaus of exactly n-2..n+1 unchanged inputs, zero volumes, and run beyond 1024 steps; impulse responses are recorded for lengths 1..12,31..33,63,64,126..128,253,254 (quick) / all 1..254 (thorough), and again as LATE impulses (the unit input arrives after 252/995/1020/2044/4092/65532 quiet steps: time invariance of the profile).",
    design_ref="DESIGN.md 5/C15",
    note="Laws are relations between executions, so they need no evaluation of the average itself and are independent of C02/C03."),
  "C08": dict(
    technique="TLA+ metamorphic trace validation: constancy under the construction value and equality of later outputs for streams with k extra leading copies, checked by TLC in exact fixed point",
    category="model_checking",
-   text="spec/Trace_Prefix.tla: an instance built from v and fed v k times (k in {1,2,n-1,n,n+1,3n}) returns a constant output -- bit-equal for selections/signals/counters, within the rounding allowance WITHOUT drift term for arithmetic outputs (squared domain for StDev) -- and then produces the same later outputs as an instance without the extra copies. Recorded for 42 method subjects (all lengths classes, special values 0, +-2^39, 2^-19, negative, flat and zero-volume candles) and for the indicators with every MA kind.",
+   text="spec/Trace_Prefix.tla: an instance built from v and fed v k times (k in {1,2,n-1,n,n+1,3n}) returns a constant output -- bit-equal for selections/signals/counters, within the rounding allowance WITHOUT drift term for arithmetic outputs (squared domain for StDev) -- and then produces the same later outputs as an instance without the extra copies. Recorded for 42 method subjects (all lengths classes, special values 0, +-2^39, 2^-19, negative, flat and zero-volume candles) and for all 36 indicators with random valid configurations (every MA kind): values constant up to rounding, signals constant while the values are bit-constant, later results unchanged by k extra leading copies (signals compared while the two runs carry bit-identical values).",
    design_ref="DESIGN.md 5/C08",
    note="Exempt as the property states: windowless Integral/ADI (and indicators configured with them), CollapseTimeframe, Renko volume. Ratio outputs (CCI, ROC, TSI) are compared on streams without exactly repeated values."),
 
@@ -102,19 +102,19 @@ CHECKS = {
  "C07": dict(
    technique="TLA+ model checking with a scaled-down PeriodType beyond counter saturation + TLA+ trace validation of long recorded streams and of checkpoints after 10^5 / 10^7 steps",
    category="model_checking",
-   text="(i) MC_Tok with PMAX 7/15: the reversal detectors equal the pivot definition on every stream of any length (complete state graph), i.e. far beyond saturation of the position counter; recorded streams of 1500/20000 inputs on the real u8 counters validated by Trace_Tok. (ii) 19 numeric methods x 4 lengths process 10^5 (quick) / 10^7 (thorough) inputs with regime changes, then a checkpoint logs the recent inputs and the global magnitude; Trace_Num rebuilds the state from the recent inputs alone and checks the next outputs against the definition with the allowance at step t (linear in t): a long past behaves like a fresh instance primed with the last window.",
+   text="(i) MC_Tok with PMAX 7/15: the reversal detectors equal the pivot definition on every stream of any length (complete state graph), i.e. far beyond saturation of the position counter; recorded streams of 1500/20000 inputs on the real u8 counters validated by Trace_Tok. (ii) 19 numeric methods x 4 lengths process 10^5 (quick) / 10^7 (thorough) inputs with regime changes, then a checkpoint logs the recent inputs and the global magnitude; Trace_Num rebuilds the state from the recent inputs alone and checks the next outputs against the definition with the allowance at step t (linear in t): a long past behaves like a fresh instance primed with the last window (one trace per subject). (iii) recurrences (Vidya x3 traces, all 13 recursive subjects) and all 36 indicators on LONG-REGIME streams (steady rallies/declines of 270-470 bars without a pullback, flat and volatile stretches, scale jumps; 1500/5000 steps per program) validated from the first step by Trace_Num / Trace_Ind (values; signals).",
    design_ref="DESIGN.md 5/C07",
    note="Indicators are covered through their methods; exponential kinds drop inputs older than 24/alpha steps (weight < e^-48)."),
  "C11": dict(
    technique="TLA+ model of the configuration contract instantiated with the catalogue of public parameters (TLC enumerates every (name, text)), replayed on static and dyn configurations; Api.tla programs on every indicator (static vs dyn)",
    category="model_checking",
-   text="spec/Config.tla: set(name, text) changes exactly the named public parameter to the value the text denotes for its type, else Err and unchanged; TLC enumerates per indicator all fields + foreign names x 22 texts and two-step sequences (29k programs), the harness replays them on the real static and dynamically dispatched configurations (observed through Serialize). Api.tla with the indicator operation set (init, next, over, init_fn, clone, snapshot) replayed on all 36 indicators, static and dyn, bit-exact; name(), size(), config(), default validity; every result of every C05/C06 trace has exactly size() values and signals.",
+   text="spec/Config.tla: set(name, text) changes exactly the named public parameter to the value the text denotes for its type, else Err and unchanged; TLC enumerates per indicator all fields + foreign names x 22 texts and two-step sequences (29k programs), the harness replays them on the real static and dynamically dispatched configurations (observed through Serialize). Api.tla with the indicator operation set (init, next, over, init_fn, clone, snapshot) replayed on all 36 indicators, static and dyn, bit-exact; name(), size(), config(), default validity; the result shape is compared with size() at every step of 400-step streams with untraded stretches (runs of zero-volume candles, zero-volume first candle), and every result of every C05/C06 trace has exactly size() values and signals.",
    design_ref="DESIGN.md 5/C11",
    note="The catalogue is read from the serialized default configurations (the struct definitions)."),
  "C12": dict(
    technique="TLA+ invariants (Ranges.tla) evaluated by TLC on every step of recorded executions with exactly flat stretches, scale drops and zero-volume bars",
    category="model_checking",
-   text="spec/Ranges.tla: Aroon, RSI, MFI, Stochastic (non-overshooting MA kinds) in [0,1]; Chande momentum, Chaikin money flow, TSI-based in [-1,1]; Bollinger/Keltner/Envelopes/PriceChannel ordered; Donchian contains the bar's high and low; SAR on the side opposite to its trend; finiteness where defined -- asserted (up to 1e-9) on the logged values of every step of regime-shaped traces of all indicators; non-negativity of LinearVolatility, StDev, MeanAbsDev, MedianAbsDev, TR follows from the two-sided acceptance around a non-negative exact value (Trace_Num), CLV in [-1,1] from Trace_Candle.",
+   text="spec/Ranges.tla: Aroon, RSI, MFI, Stochastic (non-overshooting MA kinds) in [0,1]; Chande momentum, Chaikin money flow, TSI-based in [-1,1]; Bollinger/Keltner/Envelopes/PriceChannel ordered; Donchian contains the bar's high and low; SAR on the side opposite to its trend; finiteness where defined -- asserted (up to 1e-9) on the logged values of every step of regime-shaped traces of all indicators, with 8+ programs per ranged indicator on streams with one-sided stretches (closes at the high/low), untraded stretches, bars a few ulps high and small windows (volume-normalised quantities are exempt exactly while the whole window is untraded); dispersion methods also on scripted volatile -> exactly flat -> small-scale streams at scales 1..1e9; non-negativity of LinearVolatility, StDev, MeanAbsDev, MedianAbsDev, TR follows from the two-sided acceptance around a non-negative exact value (Trace_Num), CLV in [-1,1] from Trace_Candle.",
    design_ref="DESIGN.md 5/C12",
    note="ChandeMomentumOscillator's range violation after a scale drop is an open known finding with its own traces."),
  "C19": dict(
@@ -126,7 +126,7 @@ CHECKS = {
  "C20": dict(
    technique="identical transcripts across PeriodType builds for parameters that fit u8; TLA+ trace validation with PMAX = 65535 for lengths beyond 255 and with eps = 2^-23 for the f32 build; MC_Window with 16-bit period arithmetic",
    category="model_checking",
-   text="(a) u16/u32 (thorough: u64, u16+unsafe) builds produce byte-identical transcripts to the default build for seven recorders pinned to PMAX = 255; (b) on the u16 build, windows up to 999 and methods with lengths up to 999/299 are validated by Trace_Window / Trace_Tok / Trace_Num with PMAX = 65535; MC_Window re-checked with PMAX = 65535 for capacities 254..257, 300, 1000; (c) the value_type_f32 build is validated by Trace_Num with the single-precision allowance.",
+   text="(a) u16/u32 (thorough: u64, u16+unsafe) builds produce byte-identical transcripts to the default build for seven recorders pinned to PMAX = 255; (b) on the u16 build, windows up to 999 and methods with lengths up to 999/299 are validated by Trace_Window / Trace_Tok / Trace_Num with PMAX = 65535; MC_Window re-checked with PMAX = 65535 for capacities 254..257, 300, 1000; (c) the value_type_f32 build is validated by Trace_Num with the single-precision allowance, and MC_Action's From<float> step function (every k/1020, special values) is replayed on Action::from(ValueType) of that build.",
    design_ref="DESIGN.md 5/C20",
    note="Generators are pinned through YV_PMAX so that programs are the same across builds."),
 }
